@@ -165,13 +165,20 @@ def clause5b (cands : List (Str × Cand)) (listed : List Str) : List Viol :=
 def descOf (cands : List (Str × Cand)) (f : Str) : Option (Str × Desc) :=
   (candOf cands f).map fun c => (f, c.2.2.2)
 
+/-- the names given with -M / PDSH_MISC_MODULES -/
+def specNames : Option Str → List Str
+  | none => []
+  | some s => splitComma s
+
+/-- `f` is a listed `misc` module named `nm` -/
+def isForced (cands : List (Str × Cand)) (nm : Str) (f : Str) : Bool :=
+  match candOf cands f with
+  | some c => c.1 == miscType && c.2.1 == nm
+  | none => false
+
 /-- the activation sequence: forced modules first (in -M order), then the list order -/
 def seqOf (e : Env) (cands : List (Str × Cand)) (listed : List Str) : List (Str × Desc) :=
-  ((match e.misc with | none => [] | some s => splitComma s).filterMap fun nm =>
-    (listed.find? fun f =>
-      match candOf cands f with
-      | some c => c.1 == miscType && c.2.1 == nm
-      | none => false).bind (descOf cands))
+  ((specNames e.misc).filterMap fun nm => (listed.find? (isForced cands nm)).bind (descOf cands))
   ++ listed.filterMap (descOf cands)
 
 /-- 7. activation -/
@@ -189,18 +196,25 @@ def clause7 (e : Env) (cands : List (Str × Cand)) (o : Obs) : List Viol :=
 
 /-- 8. option characters: handled only by an active module that has them; an applicable option of
     an active module must reach it (unless pdsh itself owns the character) -/
+def hasOpt (cands : List (Str × Cand)) (f : Str) (c : Char) : Bool :=
+  match candOf cands f with
+  | some x => (x.2.2.2.opts.getD []).any (·.c == c)
+  | none => false
+
+def applOf (e : Env) (cands : List (Str × Cand)) (f : Str) (c : Char) : Bool :=
+  match candOf cands f with
+  | some x => (applicable e x.2.2.2).contains c
+  | none => false
+
+def activeFiles (o : Obs) : List Str := (o.listed.filter (·.2)).map (·.1)
+
 def clause8 (e : Env) (cands : List (Str × Cand)) (o : Obs) : List Viol :=
-  let activeFiles := (o.listed.filter (·.2)).map (·.1)
-  let hasOpt (f : Str) (c : Char) := match candOf cands f with
-    | some x => (x.2.2.2.opts.getD []).any (·.c == c)
-    | none => false
-  let appl (f : Str) (c : Char) := match candOf cands f with
-    | some x => (applicable e x.2.2.2).contains c
-    | none => false
   o.uses.flatMap fun (c, u) =>
     match u with
-    | .handled f _ => if activeFiles.contains f && hasOpt f c then [] else [Viol.optAccepted c]
-    | _ => if activeFiles.any (appl · c) && !(baseOpts e.pers).contains c then [Viol.optRefused c] else []
+    | .handled f _ => if (activeFiles o).contains f && hasOpt cands f c then [] else [Viol.optAccepted c]
+    | _ =>
+      if (activeFiles o).any (applOf e cands · c) && !(baseOpts e.pers).contains c then [Viol.optRefused c]
+      else []
 
 def check (e : Env) (o : Obs) : List Viol :=
   let dir := dirFor e
